@@ -4,6 +4,7 @@ package main
 // float model. Everything here is part of the trusted base and is listed in evidence.
 
 import (
+	"go/token"
 	"fmt"
 	"go/types"
 	"sort"
@@ -609,12 +610,32 @@ func (e *Enc) onAtomic(ci ssa.CallInstruction, c *ssa.CallCommon, method string,
 func (e *Enc) onSync(ci ssa.CallInstruction, name string, args []Term) {
 	held := e.lookup(e.cur, "L$held", ArraySort(SInt, SInt))
 	a := args[0]
+	if a.S == "ADDR" && ci != nil {
+		a = e.argTerm(ci.Common(), args, 0)
+	}
+	pos := token.NoPos
+	if ci != nil {
+		pos = ci.Pos()
+	}
 	switch name {
 	case "(*sync.Mutex).Lock", "(*sync.RWMutex).Lock":
+		// lock discipline: acquiring a mutex this thread already holds (in any mode) deadlocks
+		e.oblige("PROTO", "lock.not-held", nil, Eq(Select(held, a), IntLit(0)), "Lock of a mutex this thread already holds", pos)
 		e.set(e.cur, "L$held", Store(held, a, IntLit(2)))
 	case "(*sync.RWMutex).RLock":
-		e.set(e.cur, "L$held", Store(held, a, Ite(Eq(Select(held, a), IntLit(0)), IntLit(1), Select(held, a))))
-	case "(*sync.Mutex).Unlock", "(*sync.RWMutex).Unlock", "(*sync.RWMutex).RUnlock":
+		// read-locking under one's own write lock always deadlocks; recursive read locking deadlocks when a
+		// writer arrives in between, i.e. in functions declared `contended`
+		if e.fc != nil && e.fc.Contended {
+			e.oblige("PROTO", "lock.not-held", nil, Eq(Select(held, a), IntLit(0)), "RLock of a mutex this thread already holds, in a function that runs concurrently with writers", pos)
+		} else {
+			e.oblige("PROTO", "lock.not-held", nil, Not(Eq(Select(held, a), IntLit(2))), "RLock of a mutex this thread holds for writing", pos)
+		}
+		e.set(e.cur, "L$held", Store(held, a, IntLit(1)))
+	case "(*sync.Mutex).Unlock", "(*sync.RWMutex).Unlock":
+		e.oblige("SAFE", "unlock", nil, Eq(Select(held, a), IntLit(2)), "Unlock of a mutex not write-locked by this thread", pos)
+		e.set(e.cur, "L$held", Store(held, a, IntLit(0)))
+	case "(*sync.RWMutex).RUnlock":
+		e.oblige("SAFE", "runlock", nil, Eq(Select(held, a), IntLit(1)), "RUnlock of a mutex not read-locked by this thread", pos)
 		e.set(e.cur, "L$held", Store(held, a, IntLit(0)))
 	}
 }
